@@ -19,6 +19,7 @@ import warnings
 from .core import REPO, HarnessError, Violation
 
 _BOOT = {}
+_REAL_RANDOMSTATE = None
 
 
 def bootstrap():
@@ -32,6 +33,8 @@ def bootstrap():
     warnings.filterwarnings("ignore", category=SyntaxWarning)
     import numpy as np
 
+    global _REAL_RANDOMSTATE
+    _REAL_RANDOMSTATE = np.random.RandomState
     np.seterr(all="ignore")
     import mchap
     import mchap.jitutils as jitutils
@@ -130,6 +133,7 @@ class SimRandom:
         self.probe = None  # when set: callable(vector)->index, nothing is logged/drawn
         self.script = None  # when set: list of values served to rand/randint (probes; no tape)
         self.real_choice = None
+        self.on_choice = None  # optional callback(vector, index) after every non-probe categorical draw
         self.last_ints = []
         self.seeds = []
 
@@ -171,6 +175,8 @@ class SimRandom:
                 later = [i for i in pos if i > idx]
                 idx = later[0] if later else pos[-1]
         self.last_choice = idx
+        if self.on_choice is not None:
+            self.on_choice(p, idx)
         return idx
 
     def validate_vector(self, p):
@@ -190,7 +196,7 @@ class SimRandom:
     # -- numpy.random replacements ---------------------------------------
     def rand(self, *shape):
         if shape:
-            raise HarnessError("np.random.rand with shape not modelled")
+            return self.fallback("rand")(*shape)
         if self.script is not None:
             return self.script.pop(0)
         u = self.tape.unit()
@@ -199,7 +205,7 @@ class SimRandom:
 
     def random(self, size=None):
         if size is not None:
-            raise HarnessError("np.random.random with size not modelled")
+            return self.fallback("random_sample")(size)
         if self.script is not None:
             return self.script.pop(0)
         u = self.tape.unit()
@@ -208,7 +214,7 @@ class SimRandom:
 
     def randint(self, low, high=None, size=None):
         if size is not None:
-            raise HarnessError("np.random.randint with size not modelled")
+            return self.fallback("randint")(low, high, size)
         if high is None:
             low, high = 0, low
         if self.script is not None:
@@ -217,9 +223,18 @@ class SimRandom:
         self.last_ints.append(v)
         return v
 
+    def fallback(self, name):
+        """Any other numpy.random function: evaluated by a private RandomState seeded from the tape, so the
+        draw is still decided by the tape and replays exactly (the distribution is numpy's own)."""
+        def f(*args, **kwargs):
+            self.ctx.counters.inc("fallback_random_" + name)
+            rs = _REAL_RANDOMSTATE(self.tape.int(0, 2 ** 31 - 1))
+            return getattr(rs, name)(*args, **kwargs)
+        return f
+
     def choice(self, a, size=None, replace=True, p=None):
         if size is not None or p is not None:
-            raise HarnessError("np.random.choice variant not modelled")
+            return self.fallback("choice")(a, size=size, replace=replace, p=p)
         if isinstance(a, (int, self.np.integer)):
             return self.tape.int(0, int(a) - 1)
         return a[self.tape.int(0, len(a) - 1)]
@@ -251,6 +266,9 @@ class SimRandom:
         np = self.np
         for name in ("rand", "random", "randint", "choice", "shuffle", "permutation", "seed"):
             seams.set(np.random, name, getattr(self, name))
+        seams.set(np.random, "random_sample", self.random)
+        for name in ("multinomial", "dirichlet", "beta", "binomial", "uniform", "normal", "poisson", "geometric", "exponential", "gamma"):
+            seams.set(np.random, name, self.fallback(name))
         jit = bootstrap()["jitutils"]
         if self.real_choice is None and jit.random_choice is not self.random_choice:
             self.real_choice = jit.random_choice
